@@ -291,6 +291,10 @@ Proof.
       destruct (get0 prov (earned s) =? get0 owner (own_earned s)); [|destruct (_ <? 0)]; inv_ok Ha; subst; mv_frame.
   - exfalso. eapply Hnt. reflexivity.
   - inv_ok H. subst. apply MV_end_block.
+  - mod_shape H; mv_frame.
+  - mod_shape H; mv_frame.
+  - mod_shape H; mv_frame.
+  - mod_shape H; mv_frame.
 Qed.
 
 (* the plain bank send: no event, amt moves between the two users *)
